@@ -395,9 +395,13 @@ def scenario(rng, sched="scripted", nmax=6, sess_max=7, horizon=25, kinds=("EVSE
         sd = {"kind": "uncontrolled"}
     else:
         sd = dict(sched)
+    start = [2020, rng.randint(1, 12), rng.randint(1, 28), rng.randint(0, 23), rng.choice([0, 15, 30, 45])]
+    if rng.random() < 0.15:
+        # a start off the minute grid (datetime.now(), a measured connection time): seconds and microseconds
+        start += [rng.choice([0, 29, 59]), rng.choice([0, 1, 250000, 750000, 999999])]
     return {
         "period": period if period is not None else rng.choice(PERIODS),
-        "start": [2020, rng.randint(1, 12), rng.randint(1, 28), rng.randint(0, 23), rng.choice([0, 15, 30, 45])],
+        "start": start,
         "network": net, "sessions": sessions, "recompute": rec, "scheduler": sd,
         "np_seed": rng.randrange(1 << 30),
     }
